@@ -448,6 +448,9 @@ def rule_inv_panic(ctx):
                 # keyed by message and top-level module (cache kind): moving the function to a sibling module does not change the key
                 mod_ = (b.root or nid).split('::')[0:1]
                 key = '%s|%s|%s' % (last, msg, '::'.join(x.strip('<') for x in mod_))
+                if last == 'begin_panic' and msg and 'unreachable' not in msg:
+                    # panic!("<message>"): the message names the reviewed condition; counted crate-wide (a shared helper may live in any module)
+                    key = '%s|%s' % (last, msg)
             found[key] += 1
             where[key] = (nid, t.get('line'))
     msg_table = table.get('expect_messages', {})
@@ -615,6 +618,16 @@ def rule_ptr_guarded_call(ctx):
     callers = sorted({(prog.bodies[c].root if prog.bodies[c].kind == 'closure' and prog.bodies[c].root else c)
                       for u in need_guard for c in prog.callers().get(u, ()) if not c.startswith('common::deque::')})
     unsafe_ops = need_guard
+    # completeness reference: the call sites the call graph knows (file lines of call terminators naming one of the operations)
+    expected_sites = set()
+    for c0 in {c0 for u in need_guard for c0 in prog.callers().get(u, ()) if not c0.startswith('common::deque::')}:
+        b0 = prog.bodies[c0]
+        for bi0, t0 in b0.calls():
+            for tg0 in prog.call_targets(b0, t0)[0]:
+                if tg0 in need_guard:
+                    expected_sites.add((tg0, t0.get('line')))
+    covered_sites = set()
+    inner_sites = 0
     for c in callers:
         b = prog.bodies[c]
         try:
@@ -640,6 +653,7 @@ def rule_ptr_guarded_call(ctx):
                         per_node[(e[1], e[3])].append(node)
         for (op, line), gs in sorted(per_site.items()):
             n += 1
+            covered_sites.add((op, line))
             ok = all(gs)
             exc = None
             if not ok:
@@ -654,7 +668,15 @@ def rule_ptr_guarded_call(ctx):
                 r.violate(c, 'unguarded-list-call', op.split('::')[-1], '%s calls the unsafe %s on a path where membership of the node in that deque was not established '
                           '(Deque::contains): unlinking / moving a node that is not in the list corrupts it or frees memory twice' % (c, op.split('::')[-1]),
                           where=ctx.where(c, line), expected='if deq.contains(node) { unsafe { deq.%s(node) } }' % op.split('::')[-1])
-    r.require_floor(12 if ctx.has_sync else 5, 'unsafe list-operation call sites')
+    missed = sorted(expected_sites - covered_sites, key=str)
+    if missed and not r.violations:
+        raise CheckFailure('PTR-guarded-call: %d call site(s) of unsafe list operations known to the call graph were not reached by any explored path: %s' % (
+            len(missed), ['%s@%s' % (o.split('::')[-1], l) for o, l in missed][:6]))
+    r.notes.append('call sites outside the list module: %d (all %d known to the call graph covered); membership-guarded operations: %d' % (
+        n, len(expected_sites), len(self_guarded)))
+    # the floor counts the sites wherever the guard lives: in the callers, or inside membership-guarded list operations
+    if n + sum(1 for _ in self_guarded) < 3:
+        raise CheckFailure('PTR-guarded-call: only %d call site(s) and %d membership-guarded operation(s) analysed -- the rule would pass vacuously (anchor moved?)' % (n, len(self_guarded)))
     return r
 
 
